@@ -475,6 +475,50 @@ example : ((srvRun exPm ([[(exReq [120] true, .other)], [(exReq [112] true, .suc
     some (processConn exPm [(exReq [112] true, .success [7])]) :=
   c14_connection_served_alone exPm _ [1, 0, 1] 1 _ rfl (by decide)
 
+/-! ### Request-scoped state reachable through the FContext (ephemeral properties) -/
+
+/-- What a handler reads back after setting its key is its OWN value, whatever the map held
+before: the part of a reply that is built from ephemeral properties is built from the
+request's own data. -/
+theorem c14_eph_reads_own_value (st : Hdrs) (s : EphScript) :
+    (ephRequest st s).1.back = some s.val := by
+  simp [ephRequest, hdrs_get_set]
+
+/-- A request that is the first on its protocol (every HTTP request, every NATS message, the
+first request of a connection) finds no property: nothing of any other request is visible. -/
+theorem c14_eph_fresh_per_protocol (s : EphScript) :
+    (ephRequest [] s).1.entry = none ∧ (ephRequest [] s).1.count = 1 := by
+  simp [ephRequest, Hdrs.get?, Hdrs.set]
+
+/-- Across connections, for EVERY schedule of the per-connection goroutines: the properties a
+connection's handlers see, and its map, are those of its own requests stepped as often as the
+connection was scheduled — no other connection's requests enter. -/
+theorem c14_eph_connections_independent (conns : List (List EphScript)) (sched : List Nat) (i : Nat) :
+    (ephRun (conns.map EphConn.init) sched)[i]? =
+      (conns[i]?).map fun c => iter ephStep (sched.count i) (EphConn.init c) := by
+  unfold ephRun
+  rw [modRun_conn]; simp [List.getElem?_map, Option.map_map, Function.comp_def]
+
+/-- … and once scheduled often enough, what connection i's handlers saw is `ephProtocol` of its
+own scripts from an empty map: exactly what they would see as the only client. -/
+theorem c14_eph_connection_alone (conns : List (List EphScript)) (sched : List Nat) (i : Nat) (c : List EphScript)
+    (hi : conns[i]? = some c) (hn : c.length ≤ sched.count i) :
+    ((ephRun (conns.map EphConn.init) sched)[i]?).map (·.seen) = some (ephProtocol [] c).1 := by
+  rw [c14_eph_connections_independent, hi]
+  simp [EphConn.init, iter_eph c [] [] _ hn]
+
+/-- What the code does WITHIN one connection (stated, not claimed as isolation): requests read
+from the same FProtocol share its map, so a later request finds what an earlier one on that
+connection left. -/
+theorem c14_eph_shared_within_connection (s₁ s₂ : EphScript) (h : s₁.key = s₂.key) :
+    ((ephProtocol [] [s₁, s₂]).1.map (·.entry)) = [none, some s₁.val] := by
+  simp [ephProtocol, ephRequest, Hdrs.get?, Hdrs.set, h]
+
+-- two connections using the same key, interleaved: each sees only its own values
+example : ((ephRun ([[⟨[1], [10]⟩, ⟨[1], [11]⟩], [⟨[1], [20]⟩]].map EphConn.init) [0, 1, 0])[1]?).map (·.seen) =
+    some [⟨none, some [20], 1⟩] :=
+  c14_eph_connection_alone [[⟨[1], [10]⟩, ⟨[1], [11]⟩], [⟨[1], [20]⟩]] [0, 1, 0] 1 [⟨[1], [20]⟩] rfl (by decide)
+
 /-- **Lock discipline behind the model's atomic steps** (processor write mutex, NATS server send mutex), decided by the kernel on facts
 REGENERATED from lib/go's source on every check (harness/locks → FV/Generated/Locks.lean): no function
 calls, while it holds one of these mutexes, anything that (transitively) acquires the same mutex, no
